@@ -50,6 +50,10 @@ func VP_C19_Wrappers() {
 		fakes = append(fakes, f)
 		return f
 	}
+	// the reader half of a reader+writer pair, kept by the caller as a *SafeReader, can be closed on its own (param halfclose = 1)
+	var half io.Closer
+	halfFakes := 0
+	halfClosed := false
 	var cur io.ReadWriteCloser = newFake()
 	for lvl := 0; lvl < depth; lvl++ {
 		conn, isConn := cur.(net.Conn)
@@ -73,7 +77,14 @@ func VP_C19_Wrappers() {
 			cur = NewNamedStream(cur, "s")
 		case 5:
 			// reader and writer halves: the current object as reader, a fresh fake as writer
-			cur = NewReadWriteCloser(cur, newFake())
+			if vp.Param("halfclose") == 1 && half == nil {
+				// the caller keeps the reader half as a *SafeReader (which NewReadWriteCloser reuses) and may close it on its own
+				sr := NewSafeReader(cur)
+				half, halfFakes = sr, len(fakes)
+				cur = NewReadWriteCloser(sr, newFake())
+			} else {
+				cur = NewReadWriteCloser(cur, newFake())
+			}
 		case 6:
 			cur = NewSimulatedConnection(cur, nil, nil)
 		case 7:
@@ -88,6 +99,9 @@ func VP_C19_Wrappers() {
 		op := 2 + vp.Choice("op", 5)
 		if vp.Param("strings") == 1 {
 			op = 4
+		}
+		if vp.Param("halfclose") == 1 && half != nil && !halfClosed && !closedOnce && vp.Bool("close-half-first") {
+			op = 7
 		}
 		switch op {
 		case 2:
@@ -113,6 +127,10 @@ func VP_C19_Wrappers() {
 		case 5:
 			TryClose(cur)
 			closedOnce = true
+		case 7:
+			// the reader half is closed on its own, e.g. by code that still holds it
+			half.Close()
+			halfClosed = true
 		case 6:
 			err := LogClose(cur)
 			if closedOnce {
@@ -122,7 +140,7 @@ func VP_C19_Wrappers() {
 		}
 		for _, f := range fakes {
 			vp.Assert(f.closes <= 1, "underlying-closed-at-most-once")
-			if closedOnce {
+			if closedOnce || (halfClosed && f.id < halfFakes) {
 				vp.Assert(f.closes == 1, "underlying-closed-exactly-once-after-close")
 			} else {
 				vp.Assert(f.closes == 0, "underlying-not-closed-before-close")
